@@ -568,6 +568,9 @@ func (channel *Channel) reset() {
 	channel.confirmMode = false
 	channel.confirmQueue = make([]*amqp.ConfirmMeta, 0)
 	channel.confirmLock.Unlock()
+	channel.ackLock.Lock()
+	channel.ackStore = make(map[uint64]*UnackedMessage)
+	channel.ackLock.Unlock()
 }
 
 func (channel *Channel) delete() {
